@@ -618,7 +618,7 @@ fn fuzz(r: &mut StdRng, n: usize, out: &mut Out) {
                 let hex: String = rd.iter().map(|b| format!("{:02x}", b)).collect();
                 format!("x. 5 {} TYPE{} \\# {} {}\n", class, ty, len, hex).into_bytes()
             }
-            7 if i % 2 == 0 => {
+            7 if r.gen_bool(0.6) => {
                 // a record line whose TTL / class / type field is valid UTF-8 but not ASCII (multi-octet characters at
                 // every offset of the field), or an ASCII near-miss of a mnemonic
                 let odd = ["abc\u{e9}", "ab\u{20ac}x", "a\u{1F600}1", "\u{e9}", "TYP\u{c9}1", "TYPE\u{661}", "CLAS\u{17f}1", "I\u{274}", "typ", "TYPE", "CLASS", "TYPE65536", "1\u{e9}"];
